@@ -1,15 +1,46 @@
 /-
-  Driver/Machines.lean — dispatch of stateful protocol machines for the line protocol.
+  Driver/Machines.lean — dispatch of the stateful protocol machines for the line protocol.
+  A machine line is   m.<machine> <op> <arg>* => <observation>
+  `new` resets the machine; every other op is checked against the model's set of allowed outcomes
+  and the state advances along the outcome that matches what the implementation did.
 -/
-import Model.Bytes
-open Model
+import Model.Proto.Sub
+import Model.Proto.Pub
+open Model Model.Proto
 namespace Driver.Machines
 
 structure State where
-  dummy : Nat := 0
+  sub : Sub.State := Sub.init
+  pub : Pub.State := Pub.init
+  stuck : Bool := false      -- after a disagreement the scenario is abandoned until the next `new`
+
+/-- pick the allowed outcome that matches the observation -/
+def pick {σ : Type} (outs : List (σ × List Ev)) (o : String) : Option σ :=
+  (outs.find? (fun x => obs x.2 == o)).map (·.1)
+
+def render {σ : Type} (outs : List (σ × List Ev)) : String :=
+  if outs.isEmpty then "<operation not enabled in the model>" else " | ".intercalate (outs.map (fun x => obs x.2))
 
 /-- returns (new state, agrees?, expected rendering, branch) or none for an unknown tag -/
 def step (s : State) (tag : String) (args : List String) (obs : String) : Option (State × Bool × String × String) :=
-  none
+  let opName := args.headD ""
+  if opName == "new" then
+    match tag with
+    | "m.sub" => some ({ s with sub := Sub.init, stuck := false }, true, "-", "new")
+    | "m.pub" => some ({ s with pub := Pub.init, stuck := false }, true, "-", "new")
+    | _ => none
+  else if s.stuck then some (s, true, "(skipped after earlier disagreement)", "skipped") else
+  match tag with
+  | "m.sub" =>
+    let outs := Sub.step s.sub args
+    match pick outs obs with
+    | some s' => some ({ s with sub := s' }, true, obs, opName)
+    | none => some ({ s with stuck := true }, false, render outs, opName)
+  | "m.pub" =>
+    let outs := Pub.step s.pub args
+    match pick outs obs with
+    | some s' => some ({ s with pub := s' }, true, obs, opName)
+    | none => some ({ s with stuck := true }, false, render outs, opName)
+  | _ => none
 
 end Driver.Machines
